@@ -43,6 +43,11 @@ type Target struct {
 	// that order) an inclusive upper bound for generated integer arguments (0 = none): keeps
 	// trans-diff away from arguments that make the real code allocate gigabytes.
 	Limits []uint64 `json:"limits,omitempty"`
+	// ArgMin: per protocol token an inclusive LOWER bound for generated signed integer arguments
+	// (absent/null = none): a generated value below it is folded to min + |v| mod (limit+1) (limit
+	// from Limits, 1000 when there is none).  For arguments the oracle cannot execute (a shift
+	// count `uint(n)` for negative n is 2^64-|n|: Lean's Nat shift aborts).
+	ArgMin []*int64 `json:"arg_min,omitempty"`
 	// NoDiff: no trans-diff for this target (say why in Note).
 	NoDiff bool   `json:"nodiff,omitempty"`
 	Note   string `json:"note,omitempty"`
